@@ -12,7 +12,8 @@ TECHNIQUE = ("per-arm call classification of section_element()/paragraph_element
              "lib/synflow.Inliner); guard tracking (lib/synflow.GuardWalk: what is known about one predicate - fence disabled / namespace is 0 / isolation flag - at every "
              "evaluator call, fence evaluation and Err exit, whatever the spelling of the test); provenance of the interpreter handed to the fence evaluator; "
              "MIR provenance of the closing-fence parser in code_block; line grammar of the document parser (lib/linegram.py: recognisers as item sequences classified by the "
-             "literal sets of the leaf token parsers, FIRST literals of the code parser, pre-emption sets by source order of parser applications)")
+             "literal sets of the leaf token parsers, FIRST literals of the code parser, pre-emption sets by source order of parser applications; lead paths of operator parsers - the blank "
+             "parsers consumed before the first token, alternatives and helpers looked through - against the literal alphabet of those blanks and the sigils of the prose recognisers)")
 EXPLANATION = (
     "Decides structural clauses of C10: (R1) in section_element() the arms of prose variants only hash their node (no evaluator, no symbol access); inline "
     "carriers (paragraph, comment, table, figure table) reach only paragraph_element(), which evaluates only inline-eval code; a new SectionElement variant "
@@ -31,6 +32,12 @@ EXPLANATION = (
     "begin (FIRST literals of the code parser's alternatives, as far as derivable) starts with its marker, the run is followed by a mandatory line end, i.e. the underline is a whole line; every recogniser "
     "consulted before a code parser at the same position (section(), program(), mech_code()) carries a leading sigil no derivable code start begins with or is such a heading; the code parser is tried "
     "before the generic prose parser; the statement terminator has a mandatory line-end alternative; the text loop of these recognisers stops at a line end. Which documents parse to which tree is not decided."
+    " (R12) a statement does not continue into the prose line below it: for every leaf operator of every precedence level of the formula grammar (levels found by shape `NEXT, *(OP, NEXT)` forming a "
+    "chain, operators = leaves of OP through alternatives and helper parsers) every blank parser applied between the left operand and the operator token - in the level function, the operator class, "
+    "the operator, helpers like ws0e / ws1e / space_tab - has a literal alphabet without a line end, and no blank step of a level function accepts one; for every statement-level infix operator "
+    "(`OPERAND .. padded token OPERAND` in a straight-line parser reachable from the code parser) whose leading blanks do accept a line end, the token cannot begin a sigil-led prose element (sigils and what "
+    "may follow them computed from the alternatives of the generic prose parser: bullets, quote / call-out sigils, table bars, breaks, fences). Only this structural fact about the whitespace parsers is decided, "
+    "not which documents parse to which tree nor what a statement evaluates to."
 )
 
 EXEC = {"MechCode", "FencedMechCode", "Mika", "Float"}
@@ -135,6 +142,8 @@ def run(F, rep, tier):
     run_r10(F, rep)
     from rules.c10_lines import run_r11
     run_r11(F, rep)
+    from rules.c10_opws import run_r12
+    run_r12(F, rep)
 
 
 def _run(F, rep, tier):
